@@ -101,6 +101,12 @@ CHECKS = {
          "Exclusive ownership and non-blocking release are schedule properties: all interleavings on the model, the critical interleaving "
          "forced on the real code by the barrier, random schedules judged by the ledger monitor.", "6 C13",
          "Trusted: TLC, compress/*, the race detector; ledger events are logged under one mutex after acquire / before release."),
+ "C15": ("TLC exhaustive model checking of MC_Response (every public writing call decomposed into the WriteHeader / Write calls it makes on the "
+         "underlying writer; every call sequence up to MaxCalls x every failure budget; invariants StatusLaw / LengthLaw / ErrorLaw; three "
+         "counter-models refuted) + replay of every sequence on the real Response over an instrumenting writer with every failure position, "
+         "over gzip / deflate writers and through real Dispatch (trailing filter) + TLC trace validation (RespTrace) of the recorded returns",
+         "The laws quantify over call sequences and fault positions: both are enumerated, not sampled, within the bounds; random sequences "
+         "extend payload sizes and call kinds.", "6 C15", "Trusted: TLC, Json module, compress/*; the failing writer accepts a prefix and returns an error."),
 }
 
 NOT_YET = "check under construction in this round; see DESIGN.md section 13 (build order)"
